@@ -69,6 +69,24 @@ func waitStats(p *vflowProc, d time.Duration, cond func(*flowStats) bool) (*flow
 type e2ePipeCase struct {
 	Exporters []int  `json:"exporters"` // 127.0.0.<n>, 0 = ::1
 	P         plCase `json:"pipeline"`  // exporter octets inside are ignored; Exp indexes Exporters
+	// Ambient: further valid settings of the instance that the property does not depend on
+	// (verbose, dynamic-workers, cpu-cap): key -> rendered value
+	Ambient map[string]string `json:"ambient,omitempty"`
+}
+
+// genAmbient draws settings every property must be indifferent to.
+func genAmbient(t *rapid.T) map[string]string {
+	out := map[string]string{}
+	if rapid.IntRange(0, 2).Draw(t, "ambverbose") == 0 {
+		out["verbose"] = "true"
+	}
+	if rapid.IntRange(0, 2).Draw(t, "ambdyn") == 0 {
+		out["dynamic-workers"] = "true"
+	}
+	if cap := rapid.SampledFrom([]string{"", "", "100%", "50%", "10%", "1", "2", "64"}).Draw(t, "ambcpu"); cap != "" {
+		out["cpu-cap"] = fmt.Sprintf("%q", cap)
+	}
+	return out
 }
 
 const e2ePipeRule = " | end-to-end stage: the same generated phases are sent over real UDP sockets (exporters bound to 127.0.0.x / ::1) to the real binary in windows of <= 32 datagrams " +
@@ -80,6 +98,7 @@ func genE2EPipe(t *rapid.T) e2ePipeCase {
 	envs["ipfix"].NoEnterprise = true
 	proto := rapid.SampledFrom(robustProtos).Draw(t, "proto")
 	c := e2ePipeCase{P: genPipeline(t, proto, envs, 250)}
+	c.Ambient = genAmbient(t)
 	if c.P.UDPSize > 9000 {
 		c.P.UDPSize = 9000
 	}
@@ -131,6 +150,10 @@ func runE2EPipe(prop string, c *e2ePipeCase) (v verdict, sig string, err error) 
 	}
 	for p, key := range map[string]string{"ipfix": "ipfix-udp-size", "nf9": "netflow9-udp-size", "nf5": "netflow5-udp-size", "sflow": "sflow-udp-size"} {
 		cfg.Extra[key] = strconv.Itoa(sizeOf(p))
+	}
+	for k, val := range c.Ambient {
+		cfg.Extra[k] = val
+		v.label(true, "ambient-"+k)
 	}
 	if len(pc.Filter) > 0 {
 		var parts []string
